@@ -1,6 +1,10 @@
 (* C16: run the glyf outline model on one case line and judge the implementation's output.
-   input  = GID|g0,g1,...[|P...] gN = bytes of glyph N in hex ('-' = zero-length loca entry); optional
-                                 third field: the contours glyph GID is meant to encode (on,x,y ... / ...)
+   input  = GID|g0,g1,...[|P...][|L...]   (see harness/src/bin/c16.rs)
+            gN = bytes of glyph N ('-' = zero-length loca entry): HEX, or segments HEX / COUNT*HEX joined by
+            '+'; COUNT#g = COUNT glyphs g.  P... = the contours glyph GID is meant to encode (on,x,y or
+            COUNT*on,x,y ... / ...).  L... = the loca table: Ll (default) / Ls = the long / short loca that
+            describes g0,g1,... laid out one after the other; Ll:N:BYTES / Ls:N:BYTES = these loca bytes
+            read with numGlyphs = N, the glyf table being the concatenation of g0,g1,...
    impl   = ok:CMD CMD ... | err:Name | panic       numbers = f32 bits (8 hex digits)
    model  = ok:CMD CMD ... | err:Name | panic       numbers = exact rationals n/d
    CMD    = M:x:y | L:x:y | Q:cx:cy:x:y | Z *)
@@ -29,27 +33,127 @@ let f32_of_hex (s : string) : float =
   if String.length s <> 8 then failwith "f32" else Int32.float_of_bits (Int32.of_string ("0x" ^ s))
 
 (* ---- input *)
-(* third field: the contours glyph GID is meant to encode (written by the generator) *)
+(* the contours glyph GID is meant to encode (written by the generator) *)
 let parse_hint (h : string) : (bool * (z * z)) list list =
   let body = String.sub h 1 (String.length h - 1) in
   if body = "" then [] else
   List.map (fun c ->
-      List.map (fun p ->
+      List.concat_map (fun tok ->
+          let (n, p) =
+            match String.index_opt tok '*' with
+            | Some i -> (int_of_string (String.sub tok 0 i), String.sub tok (i + 1) (String.length tok - i - 1))
+            | None -> (1, tok) in
           match split_on ',' p with
-          | [o; x; y] -> (o = "1", (z_of_string x, z_of_string y))
+          | [o; x; y] -> let pt = (o = "1", (z_of_string x, z_of_string y)) in List.init n (fun _ -> pt)
           | _ -> failwith "c16 hint")
         (List.filter (fun x -> x <> "") (split_on ' ' c)))
     (split_on '/' body)
 
-let parse_input3 (input : string) : (z list list * z * (bool * (z * z)) list list option) =
-  let tbl_of tbl = if tbl = "" then [] else List.map bytes_of_hex (split_on ',' tbl) in
+let raw_of_hex (s : string) : string =
+  if s = "-" then "" else
+  String.init (String.length s / 2) (fun i -> Char.chr (int_of_string ("0x" ^ String.sub s (2 * i) 2)))
+
+(* HEX / COUNT*HEX segments joined by '+' *)
+let expand (s : string) : string =
+  if s = "-" || s = "" then "" else begin
+    let b = Buffer.create 256 in
+    List.iter (fun seg ->
+        match String.index_opt seg '*' with
+        | Some i ->
+          let n = int_of_string (String.sub seg 0 i) in
+          let r = raw_of_hex (String.sub seg (i + 1) (String.length seg - i - 1)) in
+          for _ = 1 to n do Buffer.add_string b r done
+        | None -> Buffer.add_string b (raw_of_hex seg))
+      (split_on '+' s);
+    Buffer.contents b
+  end
+
+(* the 256 byte values as model numbers, shared *)
+let zbyte : z array = Array.init 256 z_of_int
+let z_of_raw (s : string) : z list = List.init (String.length s) (fun i -> zbyte.(Char.code s.[i]))
+
+type case = {
+  gid : z;
+  short : bool;                 (* indexToLocFormat 0 *)
+  num_glyphs : int;
+  loca : string;
+  glyf : string;
+  hint : (bool * (z * z)) list list option;
+  explicit_loca : bool;
+}
+
+let be_bytes (n : int) (v : int) : string =
+  String.init n (fun i -> Char.chr ((v lsr (8 * (n - 1 - i))) land 255))
+
+let parse_case (input : string) : case =
   match split_on '|' input with
-  | [g; tbl] -> (tbl_of tbl, z_of_string g, None)
-  | [g; tbl; h] when String.length h >= 1 && h.[0] = 'P' -> (tbl_of tbl, z_of_string g, Some (parse_hint h))
+  | g :: tbl :: opts when List.length opts <= 2 ->
+    let glyphs =
+      if tbl = "" then [] else
+      List.concat_map (fun e ->
+          match String.index_opt e '#' with
+          | Some i ->
+            let n = int_of_string (String.sub e 0 i) in
+            let b = expand (String.sub e (i + 1) (String.length e - i - 1)) in
+            List.init n (fun _ -> b)
+          | None -> [expand e])
+        (split_on ',' tbl) in
+    let hint = ref None and lspec = ref "Ll" in
+    List.iter (fun o ->
+        if String.length o >= 1 && o.[0] = 'P' then hint := Some (parse_hint o)
+        else if String.length o >= 2 && o.[0] = 'L' then lspec := o
+        else failwith "c16 input") opts;
+    let short = (match !lspec.[1] with 's' -> true | 'l' -> false | _ -> failwith "c16 loca format") in
+    let glyf = String.concat "" glyphs in
+    if String.length !lspec > 2 then begin
+      match split_on ':' !lspec with
+      | [_; n; bytes] ->
+        { gid = z_of_string g; short; num_glyphs = int_of_string n; loca = expand bytes; glyf;
+          hint = !hint; explicit_loca = true }
+      | _ -> failwith "c16 loca"
+    end else begin
+      let b = Buffer.create 64 in
+      let off = ref 0 in
+      let put o = Buffer.add_string b (if short then be_bytes 2 ((o / 2) land 0xffff) else be_bytes 4 o) in
+      List.iter (fun gl -> put !off; off := !off + String.length gl) glyphs;
+      put !off;
+      { gid = z_of_string g; short; num_glyphs = List.length glyphs; loca = Buffer.contents b; glyf;
+        hint = !hint; explicit_loca = false }
+    end
   | _ -> failwith "c16 input"
 
-let parse_input (input : string) : (z list list * z) =
-  let (t, g, _) = parse_input3 input in (t, g)
+(* The records of the table by the OpenType SPECIFICATION (plain OCaml arithmetic, nothing from the
+   model or the source): entry i of a short loca is offset / 2 as uint16, of a long loca the offset as
+   uint32; glyph i is glyf[offset i, offset i+1).  None: the loca table does not describe this glyf
+   table (too short, no glyph, decreasing offsets, offsets beyond the table). *)
+let spec_records (c : case) : string list option =
+  let w = if c.short then 2 else 4 in
+  let n = c.num_glyphs in
+  if n < 1 || String.length c.loca < (n + 1) * w then None else begin
+    let entry i =
+      let v = ref 0 in
+      for k = 0 to w - 1 do v := !v * 256 + Char.code c.loca.[i * w + k] done;
+      if c.short then !v * 2 else !v in
+    let offs = List.init (n + 1) entry in
+    let rec ok l = match l with
+      | a :: (b :: _ as r) -> a <= b && ok r
+      | [a] -> a <= String.length c.glyf
+      | [] -> true in
+    if not (ok offs) then None else
+      let rec cut l = match l with
+        | a :: (b :: _ as r) -> String.sub c.glyf a (b - a) :: cut r
+        | _ -> [] in
+      Some (cut offs)
+  end
+
+let model_table (c : case) : table outcome =
+  glyf_table (if c.short then LShort else LLong) (z_of_int c.num_glyphs) (z_of_raw c.loca) (z_of_raw c.glyf)
+
+(* the table the outline is judged on, and whether it comes from the specification *)
+let case_table (c : case) : (table outcome * bool) =
+  match spec_records c with
+  | Some recs -> (Ok (List.map z_of_raw recs), true)
+  | None -> (model_table c, false)
 
 let cmd_to_string (f : 'a -> string) (c : 'a cmd) : string =
   match c with
@@ -59,12 +163,6 @@ let cmd_to_string (f : 'a -> string) (c : 'a cmd) : string =
   | Close -> "Z"
 
 let qq_to_string ((x, y) : q * q) : string = q_to_string x ^ ":" ^ q_to_string y
-
-let run (input : string) : string =
-  let (t, gid) = parse_input input in
-  outcome_to_string
-    (fun cmds -> String.concat " " (List.map (cmd_to_string qq_to_string) cmds))
-    (visit t gid)
 
 (* ---- the implementation's result *)
 type impl_res = IOk of (float * float) cmd list | IErr of string | IPanic | IBad of string
@@ -100,10 +198,69 @@ let is_unscaled (a : xform) : bool = q_is a.m00 1 && q_is a.m01 0 && q_is a.m10 
 
 let z_abs (v : z) : z = match v with Zneg p -> Zpos p | _ -> v
 
+let top_kind (t : z list list) (gid : z) : string =
+  match table_load t with
+  | Ok _ ->
+    (match get_parsed_glyph t gid with
+     | Ok GEmpty -> "E" | Ok (GSimple _) -> "S" | Ok (GComposite _) -> "C" | _ -> "-")
+  | _ -> "-"
+
+(* everything computed from one input line, once (run, judge and tag are called for the same line one
+   after the other; glyphs with 65536 points make every traversal expensive) *)
+type insts = (xform * (z * z) cmd list) list outcome
+type analysis = {
+  c : case;
+  tbl : table outcome;            (* the table the outline is judged on *)
+  from_spec : bool;               (* ... cut by the specification (else: by the model) *)
+  mtbl : table outcome Lazy.t;    (* the model's LocaTable::read_dep + GlyfTable::read_dep *)
+  kind : string Lazy.t;           (* kind of the visited glyph in tbl *)
+  insts_model : insts Lazy.t;     (* the model's traversal of ITS table, component transforms as coded *)
+  insts_spec : insts Lazy.t;      (* traversal of tbl with the SPECIFIED component transforms ... *)
+  bounds_spec : insts Lazy.t;     (* ... and with absolute values everywhere *)
+}
+
+let memo : (string * analysis) option ref = ref None
+
+let analyse (input : string) : analysis =
+  match !memo with
+  | Some (k, a) when k = input -> a
+  | _ ->
+    let c = parse_case input in
+    let (tbl, from_spec) = case_table c in
+    let mtbl = if from_spec then lazy (model_table c) else Lazy.from_val tbl in
+    let kind = lazy (match tbl with Ok t -> top_kind t c.gid | _ -> "-") in
+    let insts_model = lazy (match Lazy.force mtbl with
+        | Ok t -> visit_insts comp_xform t c.gid
+        | Err e -> Err e | Panic -> Panic | OOB -> OOB) in
+    (* no component, no component transform: one traversal serves the model and the specification *)
+    let plain = lazy ((Lazy.force kind = "S" || Lazy.force kind = "E") && Lazy.force mtbl = tbl) in
+    let insts_spec = lazy (match tbl with
+        | Ok t -> if Lazy.force plain then Lazy.force insts_model else visit_insts spec_xform t c.gid
+        | Err e -> Err e | Panic -> Panic | OOB -> OOB) in
+    let bounds_spec = lazy (match tbl with
+        | Ok t ->
+          if Lazy.force plain then
+            (match Lazy.force insts_model with
+             | Ok i -> Ok (List.map (fun (tr, cmds) -> (x_abs tr, cmds)) i)
+             | o -> o)
+          else visit_insts (fun c -> x_abs (spec_xform c)) t c.gid
+        | Err e -> Err e | Panic -> Panic | OOB -> OOB) in
+    let a = { c; tbl; from_spec; mtbl; kind; insts_model; insts_spec; bounds_spec } in
+    memo := Some (input, a);
+    a
+
+(* the model, from the bytes of both tables: LocaTable::read_dep, GlyfTable::read_dep, visit *)
+let run (input : string) : string =
+  let a = analyse input in
+  outcome_to_string
+    (fun cmds -> String.concat " " (List.map (cmd_to_string qq_to_string) cmds))
+    (match Lazy.force a.insts_model with
+     | Ok i -> Ok (render i) | Err e -> Err e | Panic -> Panic | OOB -> OOB)
+
 (* the component transforms are the SPECIFIED ones (spec_xform: OpenType semantics, no constants from
    the source) so that a wrong matrix in the implementation is a violation, not an agreement *)
-let expected (t : z list list) (gid : z) : expect cmd list outcome =
-  match visit_insts spec_xform t gid, visit_insts (fun c -> x_abs (spec_xform c)) t gid with
+let expected (a : analysis) : expect cmd list outcome =
+  match Lazy.force a.insts_spec, Lazy.force a.bounds_spec with
   | Ok insts, Ok bounds when List.length insts = List.length bounds ->
     Ok (List.concat (List.map2 (fun (tr, cmds) (ab, _) ->
         let exact = is_unscaled ab in
@@ -177,22 +334,15 @@ let decoded_contours (t : z list list) (gid : z) : (bool * (z * z)) list list op
     Some (List.map (List.map to_spoint) (contours Z0 sg.sg_ends sg.sg_coords))
   | _ -> None
 
-let top_kind (t : z list list) (gid : z) : string =
-  match table_load t with
-  | Ok _ ->
-    (match get_parsed_glyph t gid with
-     | Ok GEmpty -> "E" | Ok (GSimple _) -> "S" | Ok (GComposite _) -> "C" | _ -> "-")
-  | _ -> "-"
-
 (* The verdict.  Besides comparing with the model's (toleranced) expectation, an outline of a simple
    glyph is decided from the SPECIFICATION: against the contours the generator meant to encode when
    the input carries them (end to end: packed encoding -> points -> commands), otherwise against the
    contours the model decodes.  So an implementation (and a model regenerated from it) that both
    deviate from the specification is a violation with this input, not an agreement. *)
-let judge (input : string) (impl : string) (_model : string) : verdict =
-  let (t, gid, hint) = parse_input3 input in
-  let exp = expected t gid in
-  let simple_top = top_kind t gid = "S" in
+let judge_table (a : analysis) (t : z list list) (hint : (bool * (z * z)) list list option) (impl : string) : verdict =
+  let gid = a.c.gid in
+  let exp = expected a in
+  let simple_top = Lazy.force a.kind = "S" in
   let spec_ok (cmds : (float * float) cmd list) : bool option =
     match hint with
     | Some cs -> Some (valid_for_contours cs cmds)
@@ -220,20 +370,65 @@ let judge (input : string) (impl : string) (_model : string) : verdict =
     else Violation ("decode", "the outline is not the one of the encoded point list")
   | IErr e, Ok _ -> Violation ("spurious-error", "visit returned " ^ e ^ " for a glyph that has an outline")
   | IErr a, Err b -> if a = err_to_string b then Agree else Mismatch ("error " ^ a ^ ", model " ^ err_to_string b)
-  | IOk _, Err LimitExceeded when top_kind t gid = "C" ->
+  | IOk _, Err LimitExceeded when Lazy.force a.kind = "C" ->
     Violation ("depth", "an outline was delivered although the composite nesting limit is exceeded")
   | IOk _, Err b -> Mismatch ("outline delivered, model rejects the input with " ^ err_to_string b)
   | _, Panic -> Mismatch "model panics"
   | _, OOB -> Mismatch "model oob"
 
+(* "For every glyph in a glyf table": the glyph judged is the record the SPECIFICATION assigns to the
+   glyph id (spec_records), whatever the implementation and the model make of the loca table.  Where
+   the loca table does not describe the glyf table the behaviour is only compared with the model. *)
+let judge (input : string) (impl : string) (_model : string) : verdict =
+  let a = analyse input in
+  let c = a.c in
+  let where v =
+    match v with
+    | Violation (cls, why) when c.short || c.explicit_loca || String.length c.glyf > 65535 ->
+      Violation (cls, Printf.sprintf "%s [%s loca, %d glyphs, glyf table of %d bytes]" why
+                   (if c.short then "short" else "long") c.num_glyphs (String.length c.glyf))
+    | v -> v in
+  match a.tbl, a.from_spec with
+  | Ok t, true ->
+    (match judge_table a t c.hint impl with
+     | Agree ->
+       (* the model must cut the table into the same records (or reject the table with the error
+          the judged table is rejected with: a record too short for its contour count) *)
+       (match Lazy.force a.mtbl with
+        | Ok t' when t' = t -> Agree
+        | Err e when table_load t = Err e -> Agree
+        | _ -> Mismatch "the model does not cut the glyf table into the records the loca table specifies")
+     | v -> where v)
+  | Ok t, false ->
+    (match judge_table a t None impl with
+     | Violation (cls, why) when cls <> "panic" ->
+       Mismatch ("the loca table does not describe the glyf table (modelled as coded): " ^ why)
+     | v -> where v)
+  | Err e, _ ->
+    (match parse_impl impl with
+     | IErr a when a = err_to_string e -> Agree
+     | IPanic -> where (Violation ("panic", "reading the tables panicked"))
+     | IBad m -> Violation ("outline", m)
+     | IErr a -> Mismatch ("the loca table does not describe the glyf table: error " ^ a ^ ", model " ^ err_to_string e)
+     | IOk _ -> Mismatch ("the loca table does not describe the glyf table: outline delivered, model " ^ err_to_string e))
+  | (Panic | OOB), _ -> Mismatch "model panics on the tables"
+
 let tag (input : string) (out : string) : string =
-  let (t, gid) = parse_input input in
-  let k = top_kind t gid in
+  let a = analyse input in
+  let c = a.c in
+  let pre =
+    (if c.explicit_loca then "x" else "") ^
+    (if c.short then "short" ^ (if String.length c.glyf > 65535 then ">64k" else "") ^ ":"
+     else if String.length c.glyf > 65535 then "long>64k:" else "") in
+  let k = Lazy.force a.kind in
   if starts_with "ok:" out then begin
     let scaled =
-      match visit_bounds t gid with
+      match Lazy.force a.bounds_spec with
       | Ok b -> List.exists (fun (a, _) -> not (is_unscaled a)) b
       | _ -> false in
-    let n = match visit_insts comp_xform t gid with Ok i -> List.length i | _ -> 0 in
-    k ^ ".ok" ^ (if k = "C" then (if scaled then ".scaled" else ".unscaled") ^ (if n > 1 then ".multi" else "") else "")
-  end else k ^ "." ^ out
+    let insts = match Lazy.force a.insts_spec with Ok i -> i | _ -> [] in
+    let n = List.length insts in
+    let npts = List.fold_left (fun a (_, cmds) -> a + List.length cmds) 0 insts in
+    pre ^ k ^ ".ok" ^ (if k = "C" then (if scaled then ".scaled" else ".unscaled") ^ (if n > 1 then ".multi" else "") else "")
+    ^ (if npts >= 65000 then ".pts>=65000" else if npts >= 32000 then ".pts>=32000" else if npts >= 250 then ".pts>=250" else "")
+  end else pre ^ k ^ "." ^ out
